@@ -94,9 +94,9 @@ pub fn plan_for(prop: &str, tier: &str) -> Option<Plan> {
             &[],
         ),
         "C10" => (
-            vec![prog(Timing, k(60_000))],
+            vec![prog(Timing, k(60_000)), prog(General, k(8_000))],
             "exploration",
-            "virtual clock, keep-alive from {0,1,2,3,4,5,9,10,11,30,65535,1..70} with/without Server Keep Alive, application waits in poll() continuously, zero-time writes; traffic and PINGRESP at random delays up to 200 s or never; oracle on completion timestamps. non-trivial = at least one PINGREQ was sent or a keep-alive timeout occurred",
+            "virtual clock, keep-alive from {0,1,2,3,4,5,9,10,11,30,65535,1..70} with/without Server Keep Alive, application waits in poll() continuously, zero-time writes; traffic and PINGRESP at random delays up to 200 s or never; oracle on completion timestamps; General adds writes that take simulated time (slow link: a write pending for 1 ms .. 6 s) under ordinary workloads. non-trivial = at least one PINGREQ was sent or a keep-alive timeout occurred",
             &["pingreq", "keepalive_timeout_disconnect"],
         ),
         "C11" => (
